@@ -40,4 +40,14 @@ CHECKS = {
         quick=dict(groups=[E("exhaustive", "^TestC08Exhaustive$", 12, env=dict(VERIF_KEEP_GOING=1)), G("random", "^TestC08Random$", 60, 4)]),
         thorough=dict(groups=[E("exhaustive", "^TestC08Exhaustive$", 12, env=dict(VERIF_KEEP_GOING=1)), G("random", "^TestC08Random$", 1500, 16)]),
     ),
+    "C07": dict(
+        title="Netmap candidates follow the add/update/remove state machine in both lists",
+        quick=dict(groups=[G("stateful", "^TestC07Stateful$", 300, 7), E("matrix", "^TestC07Matrix$")]),
+        thorough=dict(groups=[G("stateful", "^TestC07Stateful$", 5000, 15), E("matrix", "^TestC07Matrix$")]),
+    ),
+    "C06": dict(
+        title="Netmap tick: growing epoch, atomic publication, subscriber fan-out",
+        quick=dict(groups=[G("stateful", "^TestC06Stateful$", 300, 8)]),
+        thorough=dict(groups=[G("stateful", "^TestC06Stateful$", 5000, 16)]),
+    ),
 }
